@@ -29,6 +29,42 @@ enum Mode {
     Secret,
 }
 
+/// several alias attributes on one value, in both orders (`alias` then `aliases`, `aliases` then `alias`)
+#[derive(ValueEnum, Clone, Debug, PartialEq, Eq)]
+enum Speed {
+    #[value(alias = "quick", aliases = ["f", "speedy"])]
+    Fast,
+    #[value(aliases = ["s", "lazy"], alias = "crawl", alias = "idle")]
+    Slow,
+    #[value(name = "mid", aliases = ["m"], aliases = ["medium", "half"])]
+    Middle,
+}
+
+/// every spelling the declarations above give (written out by hand, not read back from clap)
+const SPEED_DECLARED: &[(&str, Speed)] = &[
+    ("fast", Speed::Fast),
+    ("quick", Speed::Fast),
+    ("f", Speed::Fast),
+    ("speedy", Speed::Fast),
+    ("slow", Speed::Slow),
+    ("s", Speed::Slow),
+    ("lazy", Speed::Slow),
+    ("crawl", Speed::Slow),
+    ("idle", Speed::Slow),
+    ("mid", Speed::Middle),
+    ("m", Speed::Middle),
+    ("medium", Speed::Middle),
+    ("half", Speed::Middle),
+];
+const MODE_DECLARED: &[(&str, Mode)] = &[("fast", Mode::Fast), ("slow-mode", Mode::Slow), ("quick", Mode::Slow)];
+
+#[derive(Parser, Debug)]
+#[command(name = "prog")]
+struct SpeedCli {
+    #[arg(long, value_enum)]
+    speed: Speed,
+}
+
 trait Cell: Sync + Send {
     fn name(&self) -> &'static str;
     fn command(&self) -> clap::Command;
@@ -592,6 +628,29 @@ fn check_value_enum() -> Vec<(String, String)> {
                     other => bad.push(("value-enum does not match case-insensitively when asked".into(), format!("{} -> {:?}", up, other))),
                 }
             }
+        }
+    }
+    // the declared spellings, not the ones clap reports back
+    for (n, v) in MODE_DECLARED {
+        match Mode::from_str(n, false) {
+            Ok(x) if &x == v => {}
+            other => bad.push(("a declared value-enum name or alias does not map to its variant".into(), format!("Mode {} -> {:?}", n, other))),
+        }
+    }
+    for (n, v) in SPEED_DECLARED {
+        match Speed::from_str(n, false) {
+            Ok(x) if &x == v => {}
+            other => bad.push(("a declared value-enum name or alias does not map to its variant".into(), format!("Speed {} -> {:?}", n, other))),
+        }
+        match SpeedCli::try_parse_from(["prog", "--speed", n]) {
+            Ok(c) if &c.speed == v => {}
+            Ok(c) => bad.push(("a declared value-enum name or alias does not map to its variant".into(), format!("--speed {} -> {:?}", n, c.speed))),
+            Err(e) => bad.push(("a declared value-enum name or alias does not map to its variant".into(), format!("--speed {} -> {}", n, kind(&e)))),
+        }
+    }
+    for w in ["fas", "quic", "", "Fast", "mi", "middle", "hal"] {
+        if let Ok(x) = Speed::from_str(w, false) {
+            bad.push(("a string that is no declared name or alias parses as a value-enum variant".into(), format!("Speed {:?} -> {:?}", w, x)));
         }
     }
     if Mode::from_str("secret", true).is_ok() {
